@@ -190,6 +190,24 @@ class Ctx:
         cmd = ["go", "build", "-tags", "verif", "-modfile", mod, "-overlay", ov, "-o", out_bin, "./cmd/" + name]
         rc, out, err = sh(cmd, cwd=hdir, env=GOENV)
         if rc != 0:
+            # An accessor file of ANOTHER property may name an identifier the tree under test no longer has. This
+            # command only needs the accessors of the harness packages it imports: retry with exactly those, so that a
+            # change to the repository disturbs only the checks whose own accessors it touches.
+            rc2, deps, _ = sh(["go", "list", "-deps", "-tags", "verif", "-modfile", mod, "./cmd/" + name], cwd=hdir, env=GOENV)
+            ids = {name} | {l.rsplit("/", 1)[1] for l in deps.splitlines() if "/verifharness/" in l}
+            full = json.load(open(ov))["Replace"]
+            own = {k: v for k, v in full.items()
+                   if (m := re.search(r"/zz_verif_([a-z0-9]+?)(?:_[^/]*)?\.go$", v)) and m.group(1) in ids}
+            if rc2 == 0 and len(own) < len(full):
+                ov2 = os.path.join(self.bindir, f"overlay-{name}.json")
+                open(ov2, "w").write(json.dumps({"Replace": own}, indent=1, sort_keys=True))
+                cmd2 = [ov2 if c == ov else c for c in cmd]
+                rc3, out3, err3 = sh(cmd2, cwd=hdir, env=GOENV)
+                if rc3 == 0:
+                    self.notes.append(f"harness {name} built with its own accessor files only "
+                                      f"({len(own)} of {len(full)}): another property's accessor does not compile on this tree")
+                    self.log(self.notes[-1])
+                    return True
             self.build_errors.append(f"harness {name}: " + err[-4000:])
             self.log(f"harness {name} build FAILED:\n" + err[-2000:])
             return False
